@@ -503,6 +503,17 @@ func genC06(ctx *Ctx) {
 			}
 		}
 	}
+	// a statement followed by a byte that is no CQL token (with and without blanks around it) is not a statement of the
+	// grammar, so no verdict is required of it (the classifier skips whatever follows an INSERT's value list, and the lexer
+	// drops an invalid LAST byte -- DESIGN.md, observations); model and implementation must agree and must not crash
+	for i := 0; i < ctx.Scale(120, 4000); i++ {
+		g := &gen06{r: r, idem: true, plain: true}
+		q := g.statement()
+		junk := hv.Pick(r, []string{"@", "#", "!", "\x00", "\r", "\xc3", "%", "^", "&", "|", "~", "`", "\\", "\x7f", "\xff"})
+		for _, v := range []string{q + " " + junk, q + junk, q + " " + junk + " ", q + "\n" + junk + "\n", q + "; " + junk} {
+			emitClass(v, 2, 0, 2, "statement-followed-by-an-invalid-byte")
+		}
+	}
 	for _, q := range adversarial {
 		emitClass(q, 2, 0, 2, "adversarial")
 		emitLex(q)
